@@ -173,6 +173,19 @@ def mapcases(draw):
     for v in voxels:
         v["refkind"] = "cell"
         v["U0"] = np.eye(3)
+    if draw(st.sampled_from([False, False, True])):
+        # grains lying exactly along the laboratory axes (a quarter turn about an axis, a cyclic permutation) with
+        # an axial strain: UBI has exact zeros, in 16 of the 24 settings the very first element
+        import itertools
+        sp = [np.array(P) * np.array(sg)[:, None] for P in
+              [np.eye(3)[list(pm)] for pm in itertools.permutations(range(3))] for sg in itertools.product((1, -1), repeat=3)]
+        sp = [M for M in sp if np.linalg.det(M) > 0]
+        for v in voxels:
+            a = v["cell"][0]
+            v["cell"] = [a, a * 1.25, a * 1.5, 90.0, 90.0, 90.0]
+            v["family"] = "orthorhombic"
+            v["Q"] = np.eye(3)
+            v["R"] = sp[draw(st.integers(0, len(sp) - 1))]
     # two phases: voxel k belongs to phase k % 2, all voxels of a phase share the reference cell
     for k, v in enumerate(voxels):
         v["cell"] = voxels[k % 2]["cell"]
